@@ -1,0 +1,70 @@
+//go:build verif
+
+package keeper
+
+// Contracts for the verification machinery in /verif (comment-only file; no code).
+//
+// verif:import host github.com/teleport-network/teleport/x/xibc/core/host
+// verif:import sdk github.com/cosmos/cosmos-sdk/types
+// verif:import packettypes github.com/teleport-network/teleport/x/xibc/core/packet/types
+// verif:import clienttypes github.com/teleport-network/teleport/x/xibc/core/client/types
+// verif:spec decodeOK(bz []byte) bool
+// verif:spec decodedPacket(bz []byte) packettypes.Packet
+// verif:spec ackDecodeOK(bz []byte) bool
+// verif:spec decodedAck(bz []byte) packettypes.Acknowledgement
+// verif:spec ackPack(a packettypes.Acknowledgement) []byte
+
+// ---- MsgRecvPacket (C01, C03, C05, C06) ----------------------------------------------------------
+
+// verif:func (Keeper).RecvPacket
+//@ let ctx = sdk.UnwrapSDKContext(goCtx)
+//@ let p   = decodedPacket(msg.Packet)
+//@ let rk  = host.PacketReceiptKey(p.SrcChain, p.DstChain, p.Sequence)
+//@ let ak  = host.PacketAcknowledgementKey(p.SrcChain, p.DstChain, p.Sequence)
+//@ let self = old(k.ClientKeeper.GetChainName(ctx))
+//@ modifies world(ctx)
+//@ ensures [decoded]        err == nil ==> decodeOK(msg.Packet)
+//@ ensures [receipt-fresh]  err == nil ==> !kvhas(old(xibc(ctx)), rk)
+//@ ensures [receipt-set]    err == nil ==> kvhas(xibc(ctx), rk)
+//@ ensures [receipts-kept]  receiptsKept(old(xibc(ctx)), xibc(ctx))
+//@ ensures [acks-kept]      acksKept(old(xibc(ctx)), xibc(ctx))
+//@ callsite CallPacket [callback-after-accept] ncalls("RecvPacket") == 1 && callsok("RecvPacket") && ncalls("CallPacket") == 0
+//@ callsite CallPacket [callback-is-onrecv]    method == "onRecvPacket" && len(args) == 1 && as(args[0], packettypes.Packet) == p
+//@ ensures [ack-written]    err == nil && p.DstChain == self ==> kvhas(xibc(ctx), ak) && !kvhas(old(xibc(ctx)), ak)
+//@ ensures [ack-written-unknown-dst] err == nil && p.DstChain != self && !kvhas(old(xibc(ctx)), host.FullClientStateKey(p.DstChain)) ==> kvhas(xibc(ctx), ak)
+//@ ensures [err-ack-no-effect] err == nil && ncalls("CallPacket") == 1 && !callsok("CallPacket") ==>
+//@        unchanged(ctx, xibc) && xibc(ctx) == kvset(callpre("CallPacket", xibc), ak, kvget(xibc(ctx), ak))
+//@ ensures [err-ack-bytes]  err == nil && ncalls("CallPacket") == 1 && !callsok("CallPacket") ==>
+//@        kvget(xibc(ctx), ak) == packettypes.CommitAcknowledgement(ackPack(packettypes.Acknowledgement{Code: 1, Result: []byte{}, Message: "receive packet callback failed", Relayer: callres("GetRelayerAddressOnOtherChain", 0), FeeOption: p.FeeOption}))
+//@ callsite GetRelayerAddressOnOtherChain [relayer-for-src] chainName == p.SrcChain && address == msg.Signer
+//@ ensures [relayer-registered] err == nil ==> ncalls("GetRelayerAddressOnOtherChain") == 1 && callres("GetRelayerAddressOnOtherChain", 1)
+
+// ---- MsgAcknowledgement (C03, C05) ---------------------------------------------------------------
+
+// verif:func (Keeper).Acknowledgement
+//@ let ctx  = sdk.UnwrapSDKContext(goCtx)
+//@ let p    = decodedPacket(msg.Packet)
+//@ let a    = decodedAck(msg.Acknowledgement)
+//@ let self = old(k.ClientKeeper.GetChainName(ctx))
+//@ modifies world(ctx)
+//@ callsite CallPacket [after-verify] ncalls("AcknowledgePacket") == 1 && callsok("AcknowledgePacket") && decodeOK(msg.Packet) && ackDecodeOK(msg.Acknowledgement) && p.SrcChain == self
+//@ callsite CallPacket [methods]  method == "setAckStatus" || method == "sendPacketFeeToRelayer" || method == "OnAcknowledgePacket"
+//@ callsite CallPacket [route]    method == "setAckStatus" ==> ncalls("CallPacket") == 0 && len(args) == 3 && as(args[0], string) == p.DstChain && as(args[1], uint64) == p.Sequence && as(args[2], uint8) == ite(a.Code == 0, uint8(1), uint8(2))
+//@ callsite CallPacket [fee]      method == "sendPacketFeeToRelayer" ==> ncalls("CallPacket") == 1 && callsok("CallPacket") && len(args) == 3 && as(args[0], string) == p.DstChain && as(args[1], uint64) == p.Sequence
+//@ callsite CallPacket [callback] method == "OnAcknowledgePacket" ==> ncalls("CallPacket") == 2 && callsok("CallPacket") && len(args) == 2 && as(args[0], packettypes.Packet) == p && as(args[1], packettypes.Acknowledgement) == a
+//@ ensures [once]       err == nil && p.SrcChain == self ==> ncalls("CallPacket") == 3 && callsok("CallPacket")
+//@ ensures [relay-none] err == nil && p.SrcChain != self ==> ncalls("CallPacket") == 0
+//@ ensures [verified-first] err == nil ==> ncalls("AcknowledgePacket") == 1 && callsok("AcknowledgePacket")
+//@ ensures [receipts-kept]  receiptsKept(old(xibc(ctx)), xibc(ctx))
+
+// ---- MsgUpdateClient (C06) -----------------------------------------------------------------------
+
+// verif:func (Keeper).UpdateClient
+//@ let ctx = sdk.UnwrapSDKContext(goCtx)
+//@ modifies world(ctx)
+//@ callsite AuthRelayer  [for-this-chain] chainName == msg.ChainName && relayer == msg.Signer
+//@ callsite CheckMsg     [on-stored-client] ncalls("GetClientState") == 1 && recv == callres("GetClientState", 0) && callres("GetClientState", 1)
+//@ callsite UpdateClient [authorised] ncalls("AuthRelayer") == 1 && callres("AuthRelayer", 0) && ncalls("CheckMsg") == 1 && callsok("CheckMsg") && chainName == msg.ChainName
+//@ callsite GetClientState [this-chain] chainName == msg.ChainName
+//@ ensures [updated-only-if-authorised] err == nil ==> ncalls("UpdateClient") == 1 && callsok("UpdateClient")
+//@ ensures [receipts-kept] receiptsKept(old(xibc(ctx)), xibc(ctx))
